@@ -3,6 +3,7 @@ import DadiVerif.Lemmas.LowPassInb
 import DadiVerif.Lemmas.LowPassDefined
 import DadiVerif.Lemmas.LowPassDeepPops
 import DadiVerif.Lemmas.LowPassCont
+import DadiVerif.Lemmas.LowPassMixSmall
 /-!
 # C18 — the low-pass calling model redistributes probability and vanishes at deep coverage
 
@@ -439,7 +440,14 @@ theorem C18_F_continuity_matrices_partial (e : ℚ) (c : List ℚ) (N m af : ℕ
   ⟨fun h t => callEntryE_tendsto e m af t h, fun h => nocall_tendsto c N af h, fun h nsub j => projEntry_tendsto N nsub af j h,
     fun nseq nsub => projMixRow0_eq nseq nsub af⟩
 
-example : projMix0 6 4 2 1 = hypW 4 6 2 1 := by decide +kernel
+/-- … for n_sequenced ≤ 14 the two branches of `projection_matrix` do agree in the limit (complete finite table, kernel
+    evaluation): together with `C18_F_continuity_matrices_partial`, `projection_matrix(2N, 2m, F)[af, j]` → the F = 0 entry as
+    F → 0⁺.  *partial*: sizes n_sequenced ≤ 14 only. -/
+theorem C18_F_continuity_projection_partial (N m af j : ℕ) (hN : N < 8) (hm : m ≤ N) (haf : af ≤ 2 * N) (hj : j ≤ 2 * m) :
+    Tendsto (fun F => projEntry (2 * N) (2 * m) F af j) (𝓝[>] 0) (𝓝 (projEntry (2 * N) (2 * m) 0 af j)) := by
+  have h0 : projEntry (2 * N) (2 * m) 0 af j = hypW (2 * m) (2 * N) af j := by simp [projEntry]
+  rw [h0, ← projMix0_eq_hypW_small N hN m (by omega) af (by omega) j (by omega)]
+  exact projEntry_tendsto N (2 * m) af j haf
 
 /-- explicit modulus for the generated single-individual genotype probabilities: |p_k(F) − p_k(0)| ≤ F/4, F/2, F/4 -/
 theorem C18_F_lipschitz_genotype (p F : ℚ) (hp0 : 0 ≤ p) (hp1 : p ≤ 1) (hF0 : 0 < F) (hF1 : F < 1) :
